@@ -208,13 +208,14 @@ fn decode(t: &mut Tape) -> Case {
             0 => {
                 let val = gen_val(t, expr);
                 let k = val_bytes(&val) as u64;
-                let addr = aim(t, &anchors, &regions).min(TOP - k);
+                // the access may end with the very last byte of the address space (no wrap)
+                let addr = aim(t, &anchors, &regions).min(TOP - (k - 1));
                 regions.push((addr, k));
                 ops.push(Op::Store { m, addr, val });
             }
             1 => {
                 let k = width_bytes(t) as u64;
-                let addr = aim(t, &anchors, &regions).min(TOP - k);
+                let addr = aim(t, &anchors, &regions).min(TOP - (k - 1));
                 ops.push(Op::Load { m, addr, bits: (k * 8) as usize });
             }
             2 => ops.push(Op::Clone { src: m, dst: t.below(MAX_LIVE) }),
@@ -627,7 +628,7 @@ fn run<V: Tv>(case: &Case, obs: &mut Obs) -> Result<(), Failure> {
                 let w_first = mm.writer.get(addr).copied();
                 let w_last = mm.writer.get(&(addr + nbytes - 1)).copied();
                 let cut_l = w_first.is_some() && addr.checked_sub(1).and_then(|a| mm.writer.get(&a).copied()) == w_first;
-                let cut_r = w_last.is_some() && mm.writer.get(&(addr + nbytes)).copied() == w_last;
+                let cut_r = w_last.is_some() && addr.checked_add(nbytes).and_then(|a| mm.writer.get(&a).copied()) == w_last;
                 let class = if covered == 0 {
                     "disjoint"
                 } else if cut_l && cut_r && w_first == w_last {
@@ -672,7 +673,9 @@ fn run<V: Tv>(case: &Case, obs: &mut Obs) -> Result<(), Failure> {
                     *mm.seams.entry(*addr).or_insert(0) |= 2;
                 }
                 if cut_r {
-                    *mm.seams.entry(addr + nbytes).or_insert(0) |= 2;
+                    if let Some(a) = addr.checked_add(nbytes) {
+                        *mm.seams.entry(a).or_insert(0) |= 2;
+                    }
                 }
                 if crosses {
                     *mm.seams.entry((addr + nbytes - 1) & !(PAGE - 1)).or_insert(0) |= 1;
@@ -698,9 +701,11 @@ fn run<V: Tv>(case: &Case, obs: &mut Obs) -> Result<(), Failure> {
                 let (shape, nstores) = load_shape(mm, &cx.back, *addr, n);
                 obs.class(&format!("load-{}", shape));
                 let mut kinds = 0u8;
-                for (s, k) in mm.seams.range(addr + 1..addr + n) {
-                    let _ = s;
-                    kinds |= *k;
+                if n > 1 {
+                    for (s, k) in mm.seams.range(addr + 1..=addr + (n - 1)) {
+                        let _ = s;
+                        kinds |= *k;
+                    }
                 }
                 if kinds & 1 != 0 {
                     obs.class("load-over-page-crossing-store");
@@ -893,9 +898,7 @@ fn run<V: Tv>(case: &Case, obs: &mut Obs) -> Result<(), Failure> {
         for d in 0..=2u64 {
             sweep.insert(a.saturating_sub(d));
             if let Some(x) = a.checked_add(d) {
-                if x < TOP {
-                    sweep.insert(x);
-                }
+                sweep.insert(x);
             }
         }
     }
@@ -924,7 +927,7 @@ fn run<V: Tv>(case: &Case, obs: &mut Obs) -> Result<(), Failure> {
             for d in [3u64, 1, 0] {
                 let a = s.saturating_sub(d);
                 for bits in [16usize, 32, 64] {
-                    if a.checked_add(bits as u64 / 8).map(|e| e < TOP).unwrap_or(false) {
+                    if a.checked_add(bits as u64 / 8 - 1).is_some() {
                         if let Err(f) = check_load(&mems[i], &models[i], &others, &mut cx, a, bits, -1) {
                             cx.report(obs, f)?;
                         }
